@@ -298,9 +298,25 @@ def gen_refused(rng):
     return ["setGuidesBad", tg, vs, _pid(rng, 0.15), tail, rng.randrange(len(BAD_COLORS))]
 
 
+def gen_reopen(rng):
+    fg = rng.sample(POOL, rng.randint(0, 2))
+    return ["reopen", [gen_unique_data(rng, i) for i in range(NGLYPH)],
+            [i if rng.random() < 0.6 else None for i in fg],
+            [rng.randrange(NGLYPH), rng.choice(POOL)] if rng.random() < 0.5 else None,
+            rng.random() < 0.5]
+
+
 def gen_op(rng, standalone, fresh, can_disk):
     if rng.random() < 0.07:
         return gen_refused(rng)
+    # round 3: read accesses, the copy through another font / layer, and more re-opened (shallow) worlds
+    if rng.random() < 0.015:
+        return ["load", rng.randrange(NGLYPH)]
+    if not standalone and rng.random() < 0.008:
+        t = rng.randrange(NGLYPH - 1)
+        return ["insertGlyphVia", t, rng.randrange(t + 1, NGLYPH), rng.random() < 0.5]
+    if can_disk and rng.random() < 0.012:
+        return gen_reopen(rng)
     r = rng.random()
     if not standalone and r < 0.04:
         return gen_tagged(rng)
@@ -627,8 +643,8 @@ def _first_touch_op(rng, t, datas, ident):
             lambda: ["deserializeFrom", rng.choice(lower), t], lambda: ["deserializeFrom", rng.choice(lower), t],
             lambda: ["copyFrom", rng.choice(lower), t], lambda: ["copyFrom", rng.choice(lower), t],
             lambda: ["drawFrom", rng.choice(lower), t, False], lambda: ["drawFrom", rng.choice(lower), t, True],
-            lambda: ["insertGlyph", rng.choice(lower), t], lambda: ["insertGlyphVia", rng.choice(lower), t],
-            lambda: ["insertGlyphVia", rng.choice(lower), t],
+            lambda: ["insertGlyph", rng.choice(lower), t], lambda: ["insertGlyphVia", rng.choice(lower), t, False],
+            lambda: ["insertGlyphVia", rng.choice(lower), t, True],
             lambda: ["decompose", rng.choice(lower), rng.randrange(4)], lambda: ["decomposeAll", rng.choice(lower)],
             lambda: ["rmForeign", 0, rng.choice(lower), t, rng.randrange(4)],
         ]
@@ -1197,7 +1213,10 @@ class World(object):
             try:
                 res = self._do(op)
             finally:
-                if was_shallow is not None and not was_shallow._shallowLoadedContours:
+                if was_shallow is not None and (not was_shallow._shallowLoadedContours
+                                                or inner[0] in ("roundtrip", "deserializeFrom")):
+                    # (a glyph that is fed a serialisation is cleared first - that loads it -, and may be shallow
+                    # again afterwards)
                     self.first_touch[inner[0]] = self.first_touch.get(inner[0], 0) + 1
             if res is None:
                 res = Atom("ok")
@@ -1648,10 +1667,17 @@ class World(object):
             len(self.glyphs[op[1]])
             return
         if k == "insertGlyphVia":
-            # the glyph is inserted into a layer of ANOTHER font; the copy made there is what comes back
-            other = D.Font()
-            self.keep.append(other)
-            there = other.layers.defaultLayer.insertGlyph(self.glyphs[op[2]], name="G%d" % op[1])
+            # the glyph is inserted into a layer of ANOTHER font (or, `op[3]`, into another layer of its own font);
+            # the copy made there is what comes back
+            if len(op) > 3 and op[3]:
+                if "c10.other" not in self.font.layers.layerOrder:
+                    self.font.newLayer("c10.other")
+                elsewhere = self.font.layers["c10.other"]
+            else:
+                other = D.Font()
+                self.keep.append(other)
+                elsewhere = other.layers.defaultLayer
+            there = elsewhere.insertGlyph(self.glyphs[op[2]], name="G%d" % op[1])
             self.keep.append(there)
             self.check_extra(there, "insertGlyphVia")
             layer = self.font.layers.defaultLayer
